@@ -10,6 +10,7 @@ CONSTANTS
   MaxMut = 2
   MaxSnap = 2
   MaxDepth = 2
+  MaxTx = 0
   FrameAddr <- FrE
   NewAddrs <- NewE
   XferTo <- XferE
